@@ -5,6 +5,9 @@ import (
 	"image"
 	"image/color"
 	"image/draw"
+	"os"
+	"os/exec"
+	"strconv"
 	"strings"
 	"sync/atomic"
 
@@ -103,11 +106,49 @@ type c10Case struct {
 }
 
 // C10: image linearise/encode is the per-pixel function, everywhere and only there.
+// c10FirstUse is the body of a child process whose very first call into the
+// library is one parallel image transform: lazily built tables are then first
+// touched by the library's own workers. Exit 3 and a line on stdout on mismatch.
+func c10FirstUse(k int) {
+	tr := &imgTransforms[k%len(imgTransforms)]
+	rect := image.Rect(0, 0, 64, 48)
+	src, _ := newImage("RGBA64", rect, 0, 3)
+	dst := image.NewRGBA64(rect)
+	tr.apply(dst, src, 16)
+	for y := 0; y < 48; y++ {
+		for x := 0; x < 64; x++ {
+			if got, want := dst.RGBA64At(x, y), tr.f(src.At(x, y)); got != want {
+				fmt.Printf("FIRSTUSE-MISMATCH %s pixel (%d,%d): got %v, per-pixel function gives %v\n", tr.name, x, y, got, want)
+				os.Exit(3)
+			}
+		}
+	}
+	os.Exit(0)
+}
+
 func C10(tier string) {
+	if s := os.Getenv("VERIF_C10_FIRST"); s != "" {
+		k, _ := strconv.Atoi(s)
+		c10FirstUse(k)
+	}
 	crashGuard("C10", tier, "exploration")
 	r := ev.Begin("C10", tier, "exploration")
+	// configuration "first call of the process": each transform as the very first
+	// library call of a fresh process, 64x48 pixels with 16 workers, three times
+	for k := range imgTransforms {
+		for rep := 0; rep < 3; rep++ {
+			cmd := exec.Command(os.Args[0], "C10", tier)
+			cmd.Env = append(os.Environ(), fmt.Sprintf("VERIF_C10_FIRST=%d", k))
+			out, err := cmd.Output()
+			r.Eval(1)
+			if err != nil {
+				r.Violate("first-call-of-the-process/"+imgTransforms[k].name, fmt.Sprintf("%s with parallelism 16 as the first library call of a process: %v %s", imgTransforms[k].name, err, tail(out, 300)), nil, nil)
+				break
+			}
+		}
+	}
 	shapes := c10Shapes(tier)
-	r.Rule(fmt.Sprintf("complete product: %d source types x %d destination types x %d bounds shapes (origins negative/zero/positive for source and destination independently, empty, 1xN, Nx1, destination larger than source, source and destination as sub-images of larger parents) x parallelism {1,2,3,4,5,7,11,13,16,64,rows+5} x %d transforms, plus in-place runs where types match, each also on neighbour-dependent data (pixel x+1 = what the transform makes of pixel x, or a copy of it, or fresh); plus a 130x110 image (14,300 pixels) for every type pair at three origin combinations x parallelism {1,2,4,13}; every byte of the destination parent's backing array is compared; distinct = configurations with a non-empty source", len(c10SrcKinds), len(c10DstKinds), len(shapes), len(imgTransforms)))
+	r.Rule(fmt.Sprintf("complete product: %d source types x %d destination types x %d bounds shapes (origins negative/zero/positive for source and destination independently, empty, 1xN, Nx1, destination larger than source, source and destination as sub-images of larger parents) x parallelism {1,2,3,4,5,7,11,13,16,64,rows+5} x %d transforms, plus in-place runs where types match, each also on neighbour-dependent data (pixel x+1 = what the transform makes of pixel x, or a copy of it, or fresh); each transform as the first library call of a fresh process (64x48, parallelism 16, three processes each); plus a 130x110 image (14,300 pixels) for every type pair at three origin combinations x parallelism {1,2,4,13}; every byte of the destination parent's backing array is compared; distinct = configurations with a non-empty source", len(c10SrcKinds), len(c10DstKinds), len(shapes), len(imgTransforms)))
 	r.Assume("expected image = destination's own Set(dst.Min + p - src.Min, f(src.At(p))) over a byte-identical copy, i.e. the destination colour model's conversion as implemented by the standard library")
 
 	type job struct {
